@@ -1318,7 +1318,7 @@ def run_sliced(ctx, fn, items, reserve, label, handle, always_first=False):
     (on an overloaded machine the build and the audit may have used up the budget already; the fixed scripts still run)."""
     import time
     pos, size = 0, 8
-    _DEADLINE[0] = ctx.t0 + ctx.budget * (1.0 - reserve) + 0.04 * ctx.budget
+    _DEADLINE[0] = ctx.t_run0 + ctx.budget * (1.0 - reserve) + 0.04 * ctx.budget
     if always_first:
         _DEADLINE[0] = max(_DEADLINE[0], time.time() + 0.25 * ctx.budget)
     try:
